@@ -104,6 +104,13 @@ impl Renderer {
 		// convert from frames to requested number of channels
 		for (i, channels) in chunk.chunks_mut(num_channels.into()).enumerate() {
 			let mut frame = self.temp_buffer[i];
+			// NaN passes through `clamp` unchanged: never hand it to the device
+			if frame.left.is_nan() {
+				frame.left = 0.0;
+			}
+			if frame.right.is_nan() {
+				frame.right = 0.0;
+			}
 			frame.left = frame.left.clamp(-1.0, 1.0);
 			frame.right = frame.right.clamp(-1.0, 1.0);
 			if num_channels == 1 {
